@@ -339,8 +339,11 @@ fn cmd_check(a: &[String]) -> i32 {
     let wall_cap = if tier == "quick" { 150 } else { 1500 };
     println!("sim check {prop} {tier}: VERIF_SEED={seed} builds={builds:?} runs/batch={nruns} seeds={seeds:?} workers={nworkers}");
 
-    let work = verif.join("work").join(format!("{prop}-{tier}"));
-    let replay_dir = verif.join("replays");
+    // (isolated campaigns / seed regressions redirect these so that they never touch the registered files)
+    let tag = std::env::var("VERIF_WORK_TAG").unwrap_or_default();
+    let work = verif.join("work").join(format!("{prop}-{tier}{tag}"));
+    let replay_dir = std::env::var("VERIF_REPLAY_DIR").map(PathBuf::from).unwrap_or_else(|_| verif.join("replays"));
+    let evidence_dir = std::env::var("VERIF_EVIDENCE_DIR").map(PathBuf::from).unwrap_or_else(|_| verif.join("evidence"));
     let mut batches: Vec<(u64, BatchOut)> = Vec::new();
     let mut harness: Vec<String> = Vec::new();
     for b in &builds {
@@ -617,8 +620,8 @@ fn cmd_check(a: &[String]) -> i32 {
         },
         "assumptions": pl.assumptions,
     });
-    let _ = std::fs::create_dir_all(verif.join("evidence"));
-    std::fs::write(verif.join("evidence").join(format!("{prop}.json")), serde_json::to_string_pretty(&ev).unwrap()).expect("write evidence");
+    let _ = std::fs::create_dir_all(&evidence_dir);
+    std::fs::write(evidence_dir.join(format!("{prop}.json")), serde_json::to_string_pretty(&ev).unwrap()).expect("write evidence");
     println!(
         "sim check {prop} {tier}: evaluations={runs} distinct_nontrivial={} executions={execs} events={events} unlisted_violations={unlisted} known={known_hits} wall={wall:.1}s",
         shapes.len()
